@@ -19,4 +19,5 @@ open Martian.Props.C01
 #print axioms kept_alive_responses_split_exactly
 #print axioms relayed_request_is_the_request
 #print axioms relayed_response_is_the_response_partial
+#print axioms relayed_head_response_is_the_response_partial
 #print axioms head_chunked_relay_leaves_stray_crlf
